@@ -14,6 +14,7 @@ type execAbort struct{ msg string }
 
 // Exec is one activation of a function being executed symbolically.
 type Exec struct {
+	loopEntry map[int]*State // state on entry to loop N (before its first iteration)
 	atomicOp      bool // inside a sync/atomic intrinsic: the write needs no lock
 	hintSkipped   map[*Hint]error
 	hintUsed      map[*Hint]bool
@@ -701,6 +702,10 @@ func (x *Exec) loopHeader(h *ssa.BasicBlock, ci *cfgInfo, pre *State, reach Term
 		lc = x.fc.Loops[ord]
 	}
 	lname := fmt.Sprintf("%s / loop#%d", x.prefix, ord)
+	if x.loopEntry == nil {
+		x.loopEntry = map[int]*State{}
+	}
+	x.loopEntry[ord] = pre.Clone() // for atloop(N, expr): the state in which loop N was entered
 	// 1. invariants hold on entry
 	if lc != nil && !x.pure {
 		for i, inv := range lc.Invariants {
